@@ -108,7 +108,7 @@ theorem matrix_canon (g : Vec ℝ 4) : SO3.matrix (SO3.canon g) = SO3.matrix g :
   unfold SO3.canon
   split_ifs
   · ext i j
-    fin_cases i <;> fin_cases j <;> simp [SO3.matrix, mat3] <;> ring
+    fin_cases i <;> fin_cases j <;> simp [SO3.matrix, mat3]
   · rfl
 
 theorem expAB_closed {x : ℝ} (h : ¬ x < Scalar.eps2) :
@@ -121,7 +121,7 @@ theorem rodrigues_entries (a : Vec ℝ 3) (θ sh ch : ℝ) (hθ : θ ≠ 0) (i j
     (SO3.matrix (mk4 (sh / θ * a 0) (sh / θ * a 1) (sh / θ * a 2) ch)) i j
       = (poly2 (SO3.hat a) (2 * sh * ch / θ) (2 * sh ^ 2 / θ ^ 2)) i j := by
   fin_cases i <;> fin_cases j <;>
-    simp [SO3.matrix, mat3, mk4, poly2, mmul, vsum, SO3.hat, ident] <;> field_simp
+    simp [SO3.matrix, mat3, mk4, poly2, mmul, vsum, SO3.hat, ident] <;> field_simp <;> ring
 
 noncomputable def ρr (n : ℝ) : ℝ := Real.sin (Real.sqrt n) / Real.sqrt n
 noncomputable def σr (n : ℝ) : ℝ := (1 - Real.cos (Real.sqrt n)) / n
